@@ -91,7 +91,8 @@ PROPS = {
         facts=['*'],
         theorems=['tie_effective_gas_price', 'tie_effective_fee', 'tie_refund_gas', 'tie_refund_is_model', 'tie_gas_used', 'tie_buy_gas', 'tie_intrinsic_gas', 'tie_intrinsic_ge_txgas', 'tie_reset_reads_gas_used', 'tie_reset_effects', 'tie_consume_gas', 'tie_refund_gas_meter', 'tie_add_overflow', 'tie_evm_base_fee', 'fact_translated_all', 'C05_charge', 'C05_charge_self', 'C05_rejected_free', 'C05_refund_cap', 'C05_bounds', 'C05_result_eq_receipt',
                   'C05_collector_gain', 'C05_one_price', 'stepEth_cases', 'fact_refund_quotient', 'fact_min_gas', 'fact_gas_meter_reset', 'fact_one_base_fee'],
-        engines=[dict(name='block', test='TestEngineBlock', quick=500, thorough=6000, thorough_seeds=3)],
+        engines=[dict(name='block', test='TestEngineBlock', quick=500, thorough=6000, thorough_seeds=3),
+                 dict(name='indexer', test='TestEngineIndexer', quick=40, thorough=600, thorough_seeds=2, no_model=True, own_oracles_only=True)],   # oracle C05-receipt-gas-of-tx-failed-outside-evm only: the Ethereum receipt (JSON-RPC) of a transaction that failed outside the EVM shows the gas limit its sender paid for
         rule=BLOCK_RULE, assumptions=BLOCK_ASSUME + ['C05_bounds lower bound assumes intrinsic + refundCounter <= gas used before refund (geth gas table: every refunded unit was paid for); E-block checks intrinsic <= gasUsed on every committed tx'],
     ),
     'C06': dict(
